@@ -19,7 +19,7 @@ META = {
                    "the dense identity for every d. Plus name resolution, definite assignment and the dtype rule for constants.",
     "assumptions": ["exact arithmetic; floating-point rounding of the products is outside the claim",
                     "scalar operands are treated as real when conjugated", "torch.einsum / reshape / pad semantics as modelled in ttsa/e5/net.py"],
-    "floors": {"E5-CHAIN": 300, "UNRES": 100, "DEFASSIGN": 40, "DTYPE": 6},
+    "floors": {"E5-CHAIN": 300, "UNRES": 100, "DEFASSIGN": 40, "DTYPE": 4},
 }
 ANCHORS = ["_tt_base.TT.__add__", "_tt_base.TT.__sub__", "_tt_base.TT.__rsub__", "_tt_base.TT.__mul__", "_tt_base.TT.__truediv__",
            "_tt_base.TT.__neg__", "_tt_base.TT.__pow__", "_tt_base.TT.__rpow__", "_tt_base.TT.full", "_extras.kron",
@@ -29,8 +29,9 @@ ANCHORS = ["_tt_base.TT.__add__", "_tt_base.TT.__sub__", "_tt_base.TT.__rsub__",
 def rule_dtype(model: Model, funcs):
     """DTYPE: constants created inside arithmetic branches take their dtype from an operand core."""
     obs = []
+    from ..inline import inlined
     for fs in funcs:
-        f = model.func(fs)
+        f = inlined(model, model.func(fs))      # constants created in an extracted private helper are read in place
         for n in ast.walk(f.node):
             if isinstance(n, ast.Call) and model.resolve(f.module, n.func) in ("torch.ones", "torch.zeros", "torch.eye", "torchtt._extras.ones",
                                                                               "torchtt._extras.zeros", "torchtt._extras.eye"):
